@@ -50,17 +50,36 @@ def import_all():
     root = str(REPO.resolve())
     if not str(ipv8.__file__).startswith(root):
         raise TranslatorError(f"ipv8 was imported from {ipv8.__file__}, not from {root}")
-    failed = []
-    for m in pkgutil.walk_packages(ipv8.__path__, "ipv8."):
+    failed, skipped = [], []
+    needed = needed_modules()
+    for m in pkgutil.walk_packages(ipv8.__path__, "ipv8.", onerror=lambda name: skipped.append(name)):
         if ".test" in m.name or m.name.startswith("ipv8.test") or m.name in SKIP_MODULES:
             continue
         try:
             importlib.import_module(m.name)
-        except Exception as e:  # a module of the package that no longer imports is a translator failure
-            failed.append(f"{m.name}: {type(e).__name__}: {e}")
+        except Exception as e:
+            # only a module that is known to define wire formats / payload classes / overlay serializers is a translator
+            # failure; an optional or platform-specific module that does not import here is recorded and skipped
+            (failed if m.name in needed else skipped).append(f"{m.name}: {type(e).__name__}: {e}")
+    IMPORT_SKIPPED[:] = skipped
     if failed:
         raise TranslatorError("modules failed to import: " + "; ".join(failed)[:600])
     return ipv8
+
+
+IMPORT_SKIPPED: list = []
+
+
+def needed_modules() -> set:
+    """modules that define a frozen payload class, the serializer, or an overlay with its own serializer"""
+    out = {"ipv8.messaging.serialization", "ipv8.messaging.lazy_payload", "ipv8.messaging.payload_dataclass",
+           "ipv8.overlay", "ipv8.dht.community", "ipv8.messaging.anonymization.community"}
+    try:
+        for e in json.loads(SPEC_JSON.read_text())["layouts"]:
+            out.add(e["name"].rpartition(".")[0])
+    except Exception:
+        pass
+    return out
 
 
 def allsubs(c):
@@ -298,7 +317,8 @@ def collect() -> dict:
     # --- payload_dataclass.type_map: annotation -> format name ----------------------------------------------------
     from ipv8.messaging import payload_dataclass as PD
     probes = {"bool": bool, "int": int, "float": float, "bytes": bytes, "str": str,
-              "list[bool]": list[bool], "list[int]": list[int], "list[float]": list[float]}
+              "list[bool]": list[bool], "list[int]": list[int], "list[float]": list[float],
+              "tuple[int]": tuple[int], "set[int]": set[int], "tuple[bool]": tuple[bool], "tuple[float]": tuple[float]}
     type_map = {}
     for key, t in probes.items():
         try:
@@ -308,7 +328,8 @@ def collect() -> dict:
         if not isinstance(f, str):
             raise TranslatorError(f"payload_dataclass.type_map({key}) = {f!r} is not a format name")
         type_map[key] = f
-    return {"registry": registry, "origin": origin, "overlays": overlays, "payloads": payloads, "type_map": type_map}
+    return {"registry": registry, "origin": origin, "overlays": overlays, "payloads": payloads, "type_map": type_map,
+            "import_skipped": list(IMPORT_SKIPPED)}
 
 
 def fmtlist_lean(items: list[str]) -> str:
